@@ -140,7 +140,7 @@ def _load_order(ctx, loader):
         reads = _touches(_closure(index, loader, fl), rattr, False)
         ctx.require(writes and reads,
                     'dependency %s -> %s through %s (writes=%s reads=%s)' % (
-                        early, late, attr, writes, reads))
+                        early, late, attr, writes, reads), rule='C11.1')
         ok = order.index(early) < order.index(late)
         ctx.ob('C11.1', lm, None, ok,
                '%s (writes %s) runs before %s (reads %s)' % (
@@ -197,7 +197,7 @@ def _verbatim(ctx, loader):
         # re-evaluated (constraints, lease) on a restart
         server = ctx.index.get_class(K.SCHED, 'Server')
         ctx.require(server is not None and 'restore' in server.methods,
-                    'verbatim restore call')
+                    'verbatim restore call', rule='C11.2')
         ctx.fail('C11.2', func, None,
                  'restore_placement never calls Server.restore(app, expires):'
                  ' a placement recorded before the server came up is not '
@@ -362,7 +362,8 @@ def forced_identity(ctx):
     param = force.params()[1]
     stores = [n for n in fgraph.nodes if any(
         N.txt(t) == 'self.identity' for t, _v, _k in K.assigns_attr(n))]
-    ctx.require(stores, 'store of self.identity in force_set_identity')
+    ctx.require(stores, 'store of self.identity in force_set_identity',
+        rule='C11.4')
     for node in stores:
         extra = [N.show(f) for f in N.canonical(ffacts[node])
                  if not (f.key[0] == 'is' and not f.key[3] and
@@ -399,7 +400,8 @@ def _keys_and_identity(ctx, loader, master, func, graph, facts):
            construct='record keys read at restart')
     forces = K.nodes_calling(graph, lambda c: K.is_meth(
         c, 'force_set_identity'))
-    ctx.require(forces, 'force_set_identity in restore_placement')
+    ctx.require(forces, 'force_set_identity in restore_placement',
+        rule='C11.4')
     for node, call in forces:
         fs = N.raw_only(facts[node])
         ok_restored = any(f.key[0] == 'truth' and f.key[2] and
@@ -425,7 +427,7 @@ def _keys_and_identity(ctx, loader, master, func, graph, facts):
     # a failed restore deletes the record
     tests = [n for n in graph.nodes if n.kind == 'test' and
              N.txt(n.ast) in roles['result']]
-    ctx.require(tests, 'test of the restore result')
+    ctx.require(tests, 'test of the restore result', rule='C11.4')
     for test in tests:
         for edge in test.succ:
             if edge.kind != 'false':
@@ -468,7 +470,7 @@ def _nothing_else(ctx, loader, func):
            construct='placement calls reachable from load_model')
     graph = ctx.cfg(func)
     loops = [n for n in graph.nodes if n.kind == 'for']
-    ctx.require(loops, 'loop of restore_placement')
+    ctx.require(loops, 'loop of restore_placement', rule='C11.5')
     defs = M.local_defs(func)
     for loop in loops:
         dom = N.txt(loop.ast.iter)
